@@ -129,6 +129,37 @@ def rule_carry(ctx):
             ctx.bad(rid, "feed_bytes_inner|return-without-carry:after-%s" % nm,
                     "after %s consumed bytes (line %d) a path returns Ok without re-storing the unconsumed remainder into self.buffer" % (nm, pos_line(f.term_pos(b))),
                     fn=f, pos=f.term_pos(b), path=p)
+    # the absolute offset of the carry-over buffer moves with every consumption
+    off_stores = set()
+    for b, blk in enumerate(f.blocks):
+        if f.is_cleanup(b):
+            continue
+        for st in blk[0]:
+            if st[0] == "=":
+                pf = place_fields(st[1])
+                if pf and pf[-1][0] == "buffer_offset" and pf[-1][1].endswith("JxlImageInner"):
+                    off_stores.add(b)
+    if not off_stores:
+        ctx.anchor_missing("R-OFFSET-COMMIT", "stores to JxlImageInner.buffer_offset in feed_bytes_inner")
+    else:
+        ctx.rule("R-OFFSET-COMMIT", "feed_bytes_inner reports frame offsets as buffer_offset + position in the carry-over buffer; after a frame's "
+                 "bytes have been consumed (Frame::feed_bytes) every path to a successful return passes a store to buffer_offset - an "
+                 "exit that keeps the consumed amount in a local (the early return on an incomplete next header) leaves every later "
+                 "frame_offset() short")
+        for b, nm in consume:
+            if nm != "feed_bytes":
+                continue
+            start = f.term(b)[4]
+            if start is None:
+                continue
+            p = find_path_edges(f, [start], lambda x: x in oks, avoid_block=lambda x: x in off_stores) if start not in off_stores else None
+            if p is None:
+                ctx.ok("R-OFFSET-COMMIT", "offset-committed-after-feed_bytes", "every Ok return after a frame consumed bytes has updated buffer_offset",
+                       nontrivial=True, fn=f)
+            else:
+                ctx.bad("R-OFFSET-COMMIT", "feed_bytes_inner|return-without-offset", "after a frame consumed bytes (line %d) a path returns Ok "
+                        "without updating buffer_offset: the offsets of all later frames are short by those bytes" % pos_line(f.term_pos(b)),
+                        fn=f, pos=f.term_pos(b), path=p)
     # try_init drains what it consumed
     ti = ox.fn("jxl_oxide::UninitializedJxlImage::try_init")
     if ti is not None:
